@@ -125,7 +125,7 @@ Definition ftag (d : tdef) (i : nat) : Z := f_tag (nth_field d i).
 Definition fty (d : tdef) (i : nat) : ty := f_ty (nth_field d i).
 
 Definition TAG_BATCH_ITEM : Z := 4325391.   (* kmip.TagBatchItem 0x42000F, used literally by ResponseBatchItem.TagEncodeTTLV *)
-Definition RESULT_STATUS_SUCCESS : Z := 0.
+Definition RESULT_STATUS_FAILED : Z := 1.    (* kmip.ResultStatusOperationFailed (after fix 961ca96) *)
 
 Section Sem.
   Variable S : schema.
@@ -272,7 +272,7 @@ Section Sem.
                  ((if op =? 0 then [] else [IEnum (ftag d 0) (ftag d 0) op]) ++
                   (match id with [] => [] | _ => [IBytes (ftag d 1) id] end) ++
                   [IEnum (ftag d 2) (ftag d 2) status] ++
-                  (if negb (status =? RESULT_STATUS_SUCCESS) || negb (reason =? 0) then [IEnum (ftag d 3) (ftag d 3) reason] else []) ++
+                  (if (status =? RESULT_STATUS_FAILED) || negb (reason =? 0) then [IEnum (ftag d 3) (ftag d 3) reason] else []) ++
                   (match msg with [] => [] | _ => [IText (ftag d 4) msg] end) ++
                   (match acv with [] => [] | _ => [IBytes (ftag d 5) acv] end) ++
                   fst p ++ fst e)], snd e)
